@@ -43,6 +43,7 @@ namespace
             // plain name, a shift / conditional, an or, a sum, a comparison-free conditional on the other branch
             p.cfg = {size, (int64_t)r.below(4), (int64_t)r.below(2), r.chance(1, 2) ? 0 : (int64_t)r.range(1, 5)};
             int n = (int)r.range(4, tier == THOROUGH ? 200 : 70);
+            if (r.chance(1, 40)) n *= 25; // a long history: what only accumulates over hundreds or thousands of operations
             // stalls: phases in which only one side runs, so the ring runs full / empty
             int phase = 0, left = 0;
             for (int i = 0; i < n; i++)
@@ -416,6 +417,7 @@ namespace
             int cap = (int)r.range(1, tier == THOROUGH ? 40 : 16);
             p.cfg = {cap, (int64_t)r.below(4), (int64_t)r.below(2)};
             int n = (int)r.range(4, tier == THOROUGH ? 160 : 60);
+            if (r.chance(1, 40)) n *= 25; // a long history: what only accumulates over hundreds or thousands of operations
             int phase = 0, left = 0;
             for (int i = 0; i < n; i++)
             {
@@ -778,6 +780,7 @@ namespace
             int cap = (int)r.range(1, 9);
             p.cfg = {cap};
             int n = (int)r.range(6, tier == THOROUGH ? 120 : 50);
+            if (r.chance(1, 40)) n *= 25; // a long history: what only accumulates over hundreds or thousands of operations
             int phase = 0, left = 0;
             for (int i = 0; i < n; i++)
             {
@@ -863,6 +866,7 @@ namespace
             int size = (int)r.range(1, tier == THOROUGH ? 40 : 13);
             p.cfg = {size, (int64_t)r.below(4), (int64_t)r.below(2)};
             int n = (int)r.range(4, tier == THOROUGH ? 150 : 60);
+            if (r.chance(1, 40)) n *= 25; // a long history: what only accumulates over hundreds or thousands of operations
             for (int i = 0; i < n; i++)
             {
                 unsigned k = (unsigned)r.below(100);
